@@ -5,3 +5,4 @@
 pub mod public;
 pub mod ffi;
 pub mod proto;
+pub mod decode;
